@@ -77,8 +77,17 @@ MANAGERS = [
 ]
 
 
-def make_pass(job):
-    """The pass object of a job: a single pass, a Sequential, or a PassManager ('PM...' first element)."""
+_LONG_LIVED: dict = {}     # job -> (pass object, passes): pipeline objects that live as long as the worker process
+
+
+def make_pass(job, reuse: bool = False):
+    """The pass object of a job: a single pass, a Sequential, or a PassManager ('PM...' first element).
+    reuse: the worker's long-lived object for this job (a pipeline object applied to one model after the other - what
+    it did to earlier models must have no influence) instead of a fresh one."""
+    if reuse:
+        if tuple(job) not in _LONG_LIVED:
+            _LONG_LIVED[tuple(job)] = make_pass(job)
+        return _LONG_LIVED[tuple(job)]
     if job[0].startswith("PM"):
         name, names, steps, early = next(m for m in MANAGERS if m[0] == job[0])
         return ir.passes.PassManager([PASSES[n]() for n in names], steps=steps, early_stop=early), [PASSES[n]() for n in names]
@@ -163,6 +172,8 @@ def evaluate(proto: onnx.ModelProto, seed: int, override=frozenset()):
         feeds = {"in1": rng.normal(size=rewrite.IN_SHAPE).astype(np.float32), "in2": rng.normal(size=rewrite.IN_SHAPE).astype(np.float32),
                  "cond": np.array(cond)}
         names = {i.name for i in proto.graph.input}
+        if "in2" not in names and "w" in names and "w" not in {i.name for i in proto.graph.initializer}:
+            feeds["w"] = feeds.pop("in2")       # the colliding naming variant calls the second input "w"
         feeds = {k: v for k, v in feeds.items() if k in names}
         # initializers listed as inputs are overridable: feed them too (same values for the same name)
         for init in proto.graph.initializer:
@@ -256,7 +267,7 @@ def run_program(P: dict, pid: int, seed: int, pass_names=None, with_sequences=Tr
         key = f"{pid}:{'+'.join(job)}"
         model = fresh()
         sorted_before = is_sorted(model)
-        the_pass, passes = make_pass(job)
+        the_pass, passes = make_pass(job, reuse=(pid % 2 == 0))     # every second program meets a used pipeline object
         try:
             res = the_pass(model)
         except Exception as e:  # noqa: BLE001
@@ -278,7 +289,7 @@ def run_program(P: dict, pid: int, seed: int, pass_names=None, with_sequences=Tr
             for _ in range(bound + 1):
                 if not rounds[-1]["modified"] and not rounds[-1]["changed"]:
                     break
-                r2 = make_pass(job)[0](cur)
+                r2 = (the_pass if pid % 2 == 0 else make_pass(job)[0])(cur)     # (the long-lived object keeps going)
                 nb = ser(r2.model)
                 rounds.append({"modified": bool(r2.modified), "changed": nb != cur_bytes})
                 cur, cur_bytes = r2.model, nb
